@@ -88,9 +88,14 @@ Fixpoint decode_from (rep : list Z) (st : dstate) (l : bytes) : list Z :=
   | b :: l' => let '(o, st') := step rep st b in o ++ decode_from rep st' l'
   end.
 
-(* new TextDecoder().decode(bytes): a BOM would be dropped, but every caller below
-   passes a slice whose first byte is '{' *)
-Definition js_decode (v : bytes) : list Z := decode_from [65533] d0 v.
+(* new TextDecoder().decode(bytes): replacement error mode, ignoreBOM = false, so a
+   leading byte order mark (EF BB BF, the only way to decode to U+FEFF) is dropped *)
+Definition strip_bom (us : list Z) : list Z :=
+  match us with
+  | u :: r => if u =? 65279 then r else us
+  | [] => []
+  end.
+Definition js_decode (v : bytes) : list Z := strip_bom (decode_from [65533] d0 v).
 
 (* isLfsEnvelope; [minlen] = 1 is the code as found (!value || value.length === 0),
    [minlen] = 15 is the code with the length check of the other SDKs *)
